@@ -309,8 +309,22 @@ func c06run(c *runner.Ctx) runner.Result {
 		res.Sigs = append(res.Sigs, fmt.Sprintf("c%d/%s", c.Case, mutantClass(m.label)))
 		wit := map[string]interface{}{"history": rec.H, "mutation": m.label, "first_damaged_byte": m.first, "wal_len": len(img), "transactions": tgLayout(tgs)}
 		if rr.Status == "timeout" {
-			res.Violation(fmt.Sprintf("WAL %s: start-up did not finish within the watchdog (60 s; an undamaged restart takes well under a second)", m.label), wit)
-			return
+			// not a verdict on a loaded machine: re-run alone with a 10 minute watchdog (an undamaged restart
+			// takes well under a second); only a second firing is a hang
+			mu.Unlock()
+			os.RemoveAll(filepath.Join(dir, "root"))
+			rr2, err2 := recoverState(s.FS, dir, false, recBin+longWatchdogSuffix)
+			mu.Lock()
+			res.Count("watchdog_reruns", 1)
+			if err2 != nil {
+				res.Inconclusive("cannot re-run restart: " + err2.Error())
+				return
+			}
+			if rr2.Status == "timeout" {
+				res.Violation(fmt.Sprintf("WAL %s: start-up hangs: it did not finish within 60 s and, re-run, not within 10 minutes (an undamaged restart takes well under a second)", m.label), wit)
+				return
+			}
+			rr = rr2
 		}
 		if !rr.OK {
 			res.Violation(fmt.Sprintf("WAL %s: start-up failed (%s): %s", m.label, rr.Status, rr.Out), wit)
